@@ -348,10 +348,12 @@ class World:
             return ('err', type(e).__name__)
 
 
-def host_chain(root, hv):
-    """a 3-layer chain the host prepared: variables (one holds a mutable list), a host function, an exclusive name"""
+def host_chain(root, hv, hostvars=None):
+    """a 3-layer chain the host prepared: variables (some hold mutable containers), a host function, an exclusive name"""
     l1 = root.create_child_context()
     l1['hostList'] = hv
+    for k, v in (hostvars or {}).items():
+        l1[k] = v
     l1['n'] = 7
 
     def host_fn(x):
@@ -376,7 +378,11 @@ def observe(world, text, data, mode, make_ctx=None, bound=True, eopts=None, bare
         return ('err', 'parse:' + type(e).__name__), fails
     hv = [1, [2, 3], {'k': [4]}]
     root = world.bare if bare else world.root
-    ctx = make_ctx(root, hv) if make_ctx else host_chain(root, hv)
+    hostvars = None
+    if isinstance(data, dict) and any(isinstance(k, str) and re.fullmatch(r'v\d+', k) for k in data):
+        # values the host keeps in variables of its context: they reach the functions raw in BOTH conversion modes
+        hostvars = {k: v for k, v in data.items() if re.fullmatch(r'v\d+', k)}
+    ctx = make_ctx(root, hv) if make_ctx else host_chain(root, hv, hostvars)
     objs = ctx_objects(ctx)
     before = Snapshot(data)
     hv_before = Snapshot(hv)
@@ -553,13 +559,22 @@ def spell(fd, args, kwargs, method):
     return '%s(%s)' % (name, ', '.join(allargs))
 
 
-def build_case(plan, target, vname, lam, method, variant):
-    """(text, data factory) for one sweep case, or None"""
+OVERLAP = {'list': 'list_str', 'dict': 'dict_flat', 'set': 'set_str'}
+
+
+def build_case(plan, target, vname, lam, method, variant, fill=None, source='data'):
+    """(text, data factory) for one sweep case, or None.  `fill`: {param: value name} for the other collection
+    positions; `source`: the values travel in the data (`$.aN`) or in variables of the host's context (`$vN`)"""
     fd = plan.fd
     data = {}
     args, kwargs = [], []
+    fill = fill or {}
 
     def slot(mk, kind='data'):
+        if source == 'var':
+            k = 'v%d' % len(data)
+            data[k] = mk
+            return '$%s.select($)' % k if kind == 'iter' else '$%s' % k
         k = 'a%d' % len(data)
         data[k] = mk
         return '$.%s.select($)' % k if kind == 'iter' else '$.%s' % k
@@ -579,6 +594,8 @@ def build_case(plan, target, vname, lam, method, variant):
             return x
         if kind == 'rule':
             return '1 => 2'
+        if n in fill:
+            return slot(VALUES[fill[n]], kind)
         return slot(x, kind)
 
     names = [n for n, _ in plan.pos]
@@ -640,6 +657,15 @@ def sweep_cases(world, rng, tier, focus):
             if tier == 'quick' and has_lambda and key not in focus:
                 lams = [LAMBDAS[0], rng.choice(LAMBDAS[1:])]
             rand = [random_value(rng, adm) for _ in range(2 if tier == 'quick' else 6)]
+            others = [n for n in plan.admits if n != target and plan.filler.get(n, (None,))[0] == 'data']
+            fills = [None]
+            if others:
+                # the other collection positions: values disjoint from the target's and values overlapping with it
+                fills = [None, {n: next((OVERLAP[k] for k in ('list', 'dict', 'set') if OVERLAP[k] in plan.admits[n]),
+                                        plan.admits[n][0]) for n in others}]
+                if key in focus:
+                    for _ in range(40):
+                        fills.append({n: rng.choice(plan.admits[n]) for n in others})
             for vname in picks + [r for r in rand if r]:
                 for method in spellings:
                     for lam in lams:
@@ -647,13 +673,15 @@ def sweep_cases(world, rng, tier, focus):
                         if isinstance(fd.parameters[target].value_type, yaqltypes.Iterable) and rng.random() < 0.5:
                             variants.append('lazy')
                         for variant in variants:
-                            c = build_case(plan, target, vname, lam, method, variant)
-                            if c is None:
-                                continue
-                            text, data = c
-                            for mode in (True, False):
-                                cases.append(dict(part='sweep', fn=key, target=target, value=vname, text=text,
-                                                  data=data, mode=mode))
+                            for fill in fills:
+                                source = 'var' if rng.random() < 0.15 else 'data'
+                                c = build_case(plan, target, vname, lam, method, variant, fill, source)
+                                if c is None:
+                                    continue
+                                text, data = c
+                                for mode in (True, False):
+                                    cases.append(dict(part='sweep', fn=key, target=target, value=vname, text=text,
+                                                      data=data, mode=mode))
     for text, shape in HAND:
         for vname in base_values:
             if shape == 'seq' and not vname.startswith(('list', 'set')):
@@ -786,6 +814,42 @@ def run_pool(world, res, rng, tier, hist):
                          dict(part='pool', text=t, mode=mode, data=pyrepr(data), steps=steps[-20:]))
                 return
         res.traces += 1
+
+
+def run_yaqleval(world, res, rng, tier, hist):
+    """`yaql.eval(expression, data)`: the module caches the engine, the parsed statements and one default context"""
+    texts = [t for t in POOL if not re.search(r'hostList|hostFn|\$n\b|\$top|\$m\b', t)]
+    ref_engine = yaql.YaqlFactory().create()
+    cb = None
+    for i in range(80 if tier == 'quick' else 600):
+        t = rng.choice(texts)
+        data = rng.choice(POOL_DATA)()
+        before = Snapshot(data)
+        try:
+            out = ('ok', yaql.eval(t, data))
+        except Exception as e:      # noqa
+            out = ('err', type(e).__name__)
+        res.case(('yaql.eval', t), nontrivial=False)
+        hist['yaqleval-' + out[0]] = hist.get('yaqleval-' + out[0], 0) + 1
+        rp = dict(part='yaqleval', text=t, data=pyrepr(data))
+        d = before.diff(Snapshot(data))
+        if d:
+            res.fail('oracle', 'data-mutated', 'yaql.eval(%r) changed its data: %s' % (t, d), rp)
+            return
+        dc = getattr(yaql, '_default_context', None)
+        if dc is not None:
+            snap = ctx_snapshot(ctx_objects(dc))
+            if cb is not None and (cb[0] is dc) and ctx_diff(cb[1], snap, None, False):
+                res.fail('oracle', 'context-changed', 'yaql.eval(%r) changed the module\'s default context: %s' % (
+                    t, ctx_diff(cb[1], snap, None, False)), rp)
+                return
+            cb = (dc, snap)
+        ref = world.run(ref_engine(t), copy.deepcopy(data), yaql.create_context())
+        same = (out[0] == ref[0]) and (out[1] == ref[1] if out[0] == 'err' else canon_result(out[1]) == canon_result(ref[1]))
+        if not same and 'Timeout' not in (out[1], ref[1]):
+            res.fail('oracle', 'reuse-differs', 'yaql.eval(%r, %s) gives %s, a fresh engine on a fresh context gives %s' % (
+                t, short(data), short(out), short(ref)), rp)
+            return
 
 
 # ====================================================================================== ctx (trace + model)
@@ -1289,7 +1353,7 @@ def replay_case(world, drv, res, case, hist):
                 what, case['text'], case['mode'], case['data']), case)
         res.case(('replay', case['text']))
         return True
-    if part in ('pool', 'ctx', 'conv', 'yaqlized') and 'seed' in case:
+    if part in ('pool', 'ctx', 'conv', 'yaqlized', 'yaqleval') and 'seed' in case:
         rng = common.make_rng(case['seed'], ID + part)
         tier = case.get('tier', 'quick')
         if part == 'pool':
@@ -1298,6 +1362,8 @@ def replay_case(world, drv, res, case, hist):
             run_ctx(world, drv, res, rng, tier, hist)
         elif part == 'conv':
             run_conv(world, drv, res, rng, tier, hist)
+        elif part == 'yaqleval':
+            run_yaqleval(world, res, rng, tier, hist)
         else:
             run_yaqlized(world, res, hist)
         return True
@@ -1378,6 +1444,7 @@ def run(env, res):
     for part, fn in (('pool', lambda r: run_pool(world, res, r, tier, hist)),
                      ('ctx', lambda r: run_ctx(world, drv, res, r, tier, hist)),
                      ('conv', lambda r: run_conv(world, drv, res, r, tier, hist)),
+                     ('yaqleval', lambda r: run_yaqleval(world, res, r, tier, hist)),
                      ('yaqlized', lambda r: run_yaqlized(world, res, hist))):
         if res.failures:
             break
